@@ -864,3 +864,253 @@ def canaries_into(programs):
         Q.note = "CANARY (oracle designates a same-typed neighbour) of " + P.pid
         out.append(Q)
     return out
+
+
+# ---------------------------------------------------------------------------------
+# C04: enum layout grid.  Payload kinds for the Kani twin (concrete, real layouts) and a
+# generic payload (T0) for the layout-independent Verus proof.
+PAYLOADS = {
+    "none": None, "u8": "u8", "bool": "bool", "char": "char", "ref": "&'static u8", "nz": "core::num::NonZeroU8",
+    "opt": "Option<u8>", "nest": "crate::m::Nest", "unit": "()", "zst": "[u8; 0]", "u32": "u32", "gen": "T0",
+}
+DISCRS = {
+    "implicit": lambda n: [None] * n,
+    "five": lambda n: [5] + [None] * (n - 1),
+    "neg": lambda n: [-1] + [None] * (n - 1),
+    "neg3": lambda n: [-3] + [None] * (n - 1),
+    "b127": lambda n: [126] + [None] * (n - 1),
+    "b128": lambda n: [127] + [None] * (n - 1),          # second variant is 128: does not fit i8
+    "b200": lambda n: [200] + [None] * (n - 1),
+    "b255": lambda n: ([None] * (n - 1) + [255]) if n > 1 else [255],
+    "k1000": lambda n: [1000] + [None] * (n - 1),
+    "nonmono": lambda n: [2, 1, 0, -1][:n],
+    "mixed": lambda n: [None, 10, None, 3][:n],
+    "i64": lambda n: [-5000000000, None, 5000000000, None][:n],
+    "imin": lambda n: [-128, None, 127, None][:n],
+}
+
+
+def fits(vals, ty):
+    lo, hi = {"u8": (0, 255), "i8": (-128, 127), "u16": (0, 65535), "i16": (-32768, 32767), "i32": (-2**31, 2**31 - 1),
+              "u32": (0, 2**32 - 1), "i64": (-2**63, 2**63 - 1), "isize": (-2**63, 2**63 - 1), "u64": (0, 2**64 - 1)}[ty]
+    return all(lo <= v <= hi for v in vals)
+
+
+def layout_enum(pid, payloads, dname, repr_, md, note_extra="", neighbours=False):
+    n = len(payloads)
+    ds = DISCRS[dname](n)
+    variants = []
+    generics = []
+    for i, pk in enumerate(payloads):
+        ty = PAYLOADS[pk]
+        if ty is None:
+            v = Variant("V%d" % i, "unit", [], discr=ds[i])
+        else:
+            if ty == "T0" and "T0" not in generics:
+                generics.append("T0")
+            kind = "tuple" if i % 2 == 0 else "named"
+            v = Variant("V%d" % i, kind, [Field("x" if kind == "named" else None, ty, ord={})], discr=ds[i])
+        variants.append(v)
+    P = ord_program(pid, "enum", "E", variants, md, generics, 0, "layout enum payloads=%s discr=%s repr=%s mode=%s%s"
+                    % ("/".join(payloads), dname, repr_, md, note_extra), prop="C04", repr_=repr_)
+    P.inst = {"T0": "u8"}
+    if any(PAYLOADS[p] not in (None, "T0") for p in payloads):
+        P.tags["no_verus"] = "concrete payload types (layout grid): decided by Kani on the real layout"
+    if neighbours:
+        P.tags["neighbours"] = True
+    return P
+
+
+def c04(tier, seed):
+    rnd = random.Random(seed)
+    c = Counter()
+    out = []
+    form = 0
+    # (A) generic payloads: layout-independent Verus proof + u8 twin; discriminant configs x reprs
+    reprs_for = {"implicit": [None, "u8", "i8", "C", "u16", "i32", "isize"], "five": [None, "u8", "i16"], "neg": [None, "i8", "i32"], "neg3": ["i16", "i64"],
+                 "b127": [None, "i8", "u8"], "b128": [None, "u8", "i16"], "b200": [None, "u8", "i32"], "b255": [None, "u8"], "k1000": [None, "u16", "i32"],
+                 "nonmono": [None, "i8", "i32"], "mixed": [None, "u8"], "i64": [None, "i64"], "imin": [None, "i8"]}
+    shapes = [("none", "none", "none"), ("gen", "none", "gen"), ("none", "gen"), ("gen",), ("gen", "gen", "none", "gen"), ("none", "none"), ("none", "none", "none", "none")]
+    for dname, reprs in reprs_for.items():
+        for repr_ in reprs:
+            for sh in shapes:
+                n = len(sh)
+                ds = DISCRS[dname](n)
+                if len(ds) < n:
+                    continue
+                # explicit discriminants on non-unit variants need an integer repr
+                has_payload = any(p != "none" for p in sh)
+                explicit = any(d is not None for d in ds)
+                if has_payload and explicit and repr_ in (None, "C"):
+                    continue
+                vals = []
+                cur = -1
+                for d in ds:
+                    cur = d if d is not None else cur + 1
+                    vals.append(cur)
+                if len(set(vals)) != len(vals):
+                    continue
+                if repr_ not in (None, "C") and not fits(vals, repr_):
+                    continue
+                if repr_ in (None, "C") and not fits(vals, "isize"):
+                    continue
+                form += 1
+                if tier == "quick" and form % 3 != 0 and dname not in ("b128", "nonmono", "b255"):
+                    continue
+                md = "both" if form % 2 == 0 else "po"
+                out.append(layout_enum(c.pid(), sh, dname, repr_, md))
+    # (B) concrete payload grid (Kani, real layouts)
+    pls = ["u8", "bool", "char", "ref", "nz", "opt", "nest", "unit", "zst", "u32"]
+    grid = []
+    for pk in pls:
+        grid += [((pk,), "implicit", None), ((pk, "none"), "implicit", None), (("none", pk), "implicit", None),
+                 (("none", pk, "none"), "implicit", None), ((pk, pk), "implicit", None), (("none", "none", pk), "nonmono", "i8"),
+                 ((pk, "none"), "b200", "u8"), (("none", pk), "neg", "i32")]
+        if tier != "quick":
+            grid += [((pk, "none", pk, "none"), "implicit", None), ((pk, pk, pk), "implicit", "C"), (("none", pk, "none", "none"), "mixed", "u8"),
+                     ((pk,), "five", "u16"), ((pk, "none", "none"), "k1000", "i32"), (("none", pk), "i64", "i64")]
+    grid += [(("none",), "implicit", None), (("none",), "five", None), (("unit",), "implicit", None), (("zst", "zst"), "implicit", None),
+             (("bool", "bool"), "implicit", None), (("opt", "nest", "none"), "implicit", None), (("ref", "nz"), "implicit", None)]
+    for gi, (sh, dname, repr_) in enumerate(grid):
+        form += 1
+        md = "both" if form % 2 == 0 else "po"
+        out.append(layout_enum(c.pid(), sh, dname, repr_, md, neighbours=(gi % 4 == 0)))
+    return out
+
+
+def canaries_c04(programs):
+    out = []
+    gens = [p for p in programs if not p.tags.get("no_verus") and len(p.variants) >= 2]
+    conc = [p for p in programs if p.tags.get("no_verus") and len(p.variants) >= 2]
+    for P in gens[:1] + gens[-1:] + conc[:1]:
+        Q = P.clone(); Q.pid = P.pid + "_canary"; Q.canary_of = P.pid
+        d = Q.discriminants()
+        Q.variants[0].discr = max(d) + 10       # oracle believes the first variant sorts last
+        for v, x in zip(Q.variants[1:], d[1:]):
+            v.discr = x
+        Q.note = "CANARY (oracle uses a wrong discriminant for the first variant) of " + P.pid
+        out.append(Q)
+    return out
+
+
+# ---------------------------------------------------------------------------------
+# C06
+def dbg_type_meta(name, named_field, form):
+    """spelled type-/variant-level Debug meta (or None)"""
+    ps = []
+    if isinstance(name, str) and name != "default":
+        if named_field is None and form % 5 == 0:
+            return "Debug = %s" % (name if form % 2 else '"%s"' % name)
+        ps.append(["name = %s", "name(%s)", 'rename = "%s"', 'name("%s")', "rename(%s)"][form % 5] % name)
+    elif name is True and name != "default":
+        ps.append(["name = true", "name(true)"][form % 2])
+    elif name is False:
+        ps.append(["name = false", "name(false)", "rename = false"][form % 3])
+    if named_field is not None:
+        ps.append(["named_field = %s", "named_field(%s)"][form % 2] % ("true" if named_field else "false"))
+    if form % 2:
+        ps.reverse()
+    return "Debug(%s)" % ", ".join(ps) if ps else None
+
+
+def dbg_field(name, ty, a, form, struct_style):
+    """a: 'n' plain, 'i' ignore, 'k' renamed key (struct style only)"""
+    sem = {"ignore": a == "i", "key": None, "method": None}
+    attrs = []
+    if a == "i":
+        attrs.append(["Debug(ignore)", "Debug = false", "Debug(ignore = true)", "Debug(ignore(true))"][form % 4])
+    elif a == "k" and struct_style:
+        k = "k%d" % (form % 7)
+        sem["key"] = k
+        attrs.append(["Debug(name = %s)", "Debug = %s", "Debug(rename(%s))", 'Debug(name = "%s")', 'Debug = "%s"', "Debug(name(%s))"][form % 6] % k)
+    return Field(name, ty, attrs=attrs, debug=sem)
+
+
+def c06(tier, seed):
+    rnd = random.Random(seed)
+    c = Counter()
+    out = []
+    form = 0
+    names = [("default", "default"), ("Renamed", "custom"), (False, "off")]
+    maxn = 3 if tier == "quick" else 4
+    for shape in ("named", "tuple"):
+        for n in range(0, maxn + 1):
+            for tn, _ in names:
+                for nf in (None, shape != "named"):
+                    struct_style = (shape == "named") if nf is None else nf
+                    if tn is False and (n == 0 or struct_style):
+                        continue          # nameless unit shape is rejected; nameless struct style is the debug_map form (outside Verus)
+                    assigns = list(itertools.product("nik" if struct_style else "ni", repeat=n))
+                    if tier == "quick" and len(assigns) > 6:
+                        assigns = assigns[form % 3::max(1, len(assigns) // 6)][:6]
+                    for assign in assigns:
+                        if tn is False and all(a == "i" for a in assign):
+                            continue      # nothing left to show without a name: rejected by educe
+                        form += 1
+                        generics = ["T%d" % i for i in range(n)]
+                        fnames = HOSTILE if form % 5 == 0 else NAMES
+                        fields = [dbg_field(fnames[i] if shape == "named" else None, generics[i], a, form + i, struct_style) for i, a in enumerate(assign)]
+                        meta = dbg_type_meta(tn, nf, form)
+                        P = Program(c.pid(), "struct", "S", [Variant(None, shape, fields)], [meta or "Debug"], generics=generics,
+                                    inst={g: "u8" for g in generics}, focus={"Debug"},
+                                    note="struct %s n=%d name=%s named_field=%s fields=%s" % (shape, n, tn, nf, "".join(assign) or "-"),
+                                    debug={"name": tn, "named_field": nf})
+                        out.append(P)
+    for tn in ("default", "Renamed"):
+        form += 1
+        out.append(Program(c.pid(), "struct", "S", [Variant(None, "unit", [])], [dbg_type_meta(tn, None, form) or "Debug"], focus={"Debug"},
+                           note="unit struct name=%s" % tn, debug={"name": tn, "named_field": None}))
+    # enums
+    vkinds = [("unit", 0), ("tuple", 1), ("named", 2), ("tuple", 2), ("named", 1), ("named", 3)]
+    tnames = [("default", "enum name off"), (True, "enum name on"), ("Ren", "enum renamed")]
+    combos = [(0,), (1,), (2,), (0, 1, 2), (3, 4, 0), (2, 2), (1, 3, 5, 0), (5, 0, 1), (0, 0, 0), (4, 2, 3, 1)]
+    if tier != "quick":
+        combos += [tuple(rnd.randrange(6) for _ in range(rnd.choice((2, 3, 4, 5)))) for _ in range(60)]
+    for ci, combo in enumerate(combos):
+        for tn, _ in tnames:
+            for vmode in range(3):
+                form += 1
+                generics, variants = [], []
+                for vi, ki in enumerate(combo):
+                    kind, m = vkinds[ki]
+                    # variant-level name: default / disabled / custom ; named_field flip on some
+                    vn = [True, False, "Q%d" % vi][(vi + vmode) % 3]
+                    vnf = None if (vi + vmode + ci) % 3 else (kind != "named")
+                    if kind == "unit":
+                        vnf = None
+                    struct_style = (kind == "named") if vnf is None else vnf
+                    tshown = None if tn == "default" else tn
+                    if vn is False and tshown is None:
+                        vn = True      # no name shown in an enum: unit rejected, struct style = debug_map form, tuple style does not compile on the pinned tree (C01 defect: `f.debug_tuple()`)
+                    fs = []
+                    for j in range(m):
+                        a = ["n", "i", "k", "n"][(form + vi + j) % 4]
+                        ty = "T%d" % ((vi + j) % 3)
+                        if ty not in generics:
+                            generics.append(ty)
+                        fs.append(dbg_field(NAMES[j] if kind == "named" else None, ty, a, form + vi + j, struct_style))
+                    vmeta = dbg_type_meta(vn if vn is not True else "default", vnf, form + vi)
+                    variants.append(Variant("V%d" % vi, kind, fs, attrs=[vmeta] if vmeta else [], debug={"name": vn, "named_field": vnf}))
+                generics.sort()
+                meta = dbg_type_meta(tn, None, form)
+                out.append(Program(c.pid(), "enum", "E", variants, [meta or "Debug"], generics=generics, inst={g: "u8" for g in generics},
+                                   focus={"Debug"}, note="enum %s type-name=%s vmode=%d" % (combo, tn, vmode),
+                                   debug={"name": tn, "named_field": None}))
+    return out
+
+
+def canaries_debug(programs):
+    out = []
+    picks = [p for p in programs if p.kind == "struct" and len(p.variants[0].fields) >= 2 and not any(f.s("debug", "ignore") for f in p.variants[0].fields)]
+    for P in picks[:1] + picks[-1:]:
+        Q = P.clone(); Q.pid = P.pid + "_canary"; Q.canary_of = P.pid
+        Q.variants[0].fields[-1].sem["debug"] = dict(Q.variants[0].fields[-1].sem["debug"], ignore=True)
+        Q.note = "CANARY (oracle omits the last field) of " + P.pid
+        out.append(Q)
+    es = [p for p in programs if p.kind == "enum" and len(p.variants) >= 2]
+    for P in es[4:5]:
+        Q = P.clone(); Q.pid = P.pid + "_canary"; Q.canary_of = P.pid
+        Q.sem["debug"] = dict(Q.sem["debug"], name="Wrong")
+        Q.note = "CANARY (oracle expects another enum name) of " + P.pid
+        out.append(Q)
+    return out
